@@ -105,7 +105,8 @@ def mutations(src: str, lo: int, hi: int):
             yield ln, "mux-arms-swapped", splice(src, n, f"Mux({a[0]}, {a[2]}, {a[1]})")
         elif isinstance(n, ast.keyword) and n.arg in ("nonexclusive", "single_caller", "ready_dependent", "priority", "nonblocking") and isinstance(n.value, ast.Constant) and isinstance(n.value.value, bool):
             pass  # covered by the bool constant flip
-        elif isinstance(n, ast.Subscript) and isinstance(n.slice, ast.Name) and isinstance(n.ctx, ast.Load):
+        elif isinstance(n, ast.Subscript) and isinstance(n.slice, ast.Name) and isinstance(n.ctx, ast.Load) and not (
+                isinstance(n.value, ast.Name) and n.value.id in ("set", "dict", "list", "frozenset", "deque", "defaultdict", "tuple", "type", "Graph", "GraphCC", "Optional", "Iterable", "Sequence")):
             yield ln, "index+1", splice(src, n, f"{ast.get_source_segment(src, n.value)}[{n.slice.id} + 1]")
         elif isinstance(n, ast.Expr) and isinstance(n.value, ast.Call) and txt and not txt.startswith(("super(", "print(")):
             yield ln, "drop-call-statement", splice(src, n, "pass")
